@@ -167,3 +167,18 @@ def countTrue : List (Option Bool) → Nat
   | _ :: rest => countTrue rest
 
 end Poly.Model.Gov
+
+namespace Poly.Model.Gov
+
+/-- Which helper stores the request that an approval method approves (Go function names). -/
+def requestStoredBy : List (String × String) :=
+  [("ApproveCandidate", "putPeerApply"), ("ApproveRegisterSideChain", "putSideChainApply"),
+   ("ApproveUpdateSideChain", "putUpdateSideChain"), ("ApproveQuitSideChain", "putQuitSideChain"),
+   ("ApproveRegisterRelayer", "putRelayerApply"), ("ApproveRemoveRelayer", "putRelayerRemove"),
+   ("ApproveRegisterStateValidator", "putStateValidatorApply"), ("ApproveRemoveStateValidator", "putStateValidatorRemove")]
+
+/-- prefixes listed for function `f` in a generated table -/
+def prefixesOf (table : List (String × String × List String)) (f : String) : List String :=
+  (table.filter (fun r => r.2.1 == f)).flatMap (fun r => r.2.2)
+
+end Poly.Model.Gov
